@@ -255,6 +255,7 @@ inductive Ev where
   | clear (ctrl res : Nat) (l : Letter)
   | chunk (res : Nat) (l : Letter)
   | xfer (l : Letter)
+  | reserveFailed (code : Nat)     -- `reserve_fn()` raised CompletionCodeError(code) (only `EnvR`)
   deriving Repr, DecidableEq, Inhabited
 
 structure Env where
@@ -294,6 +295,38 @@ def Env.xfer (e : Env) : Env × Outcome Unit :=
   let (l, s) := e.script.next
   let e' := { e with script := s, trace := e.trace ++ [.xfer l] }
   if l.code = 0 then (e', .ok ()) else (e', .ccError l.code)
+
+/-! ### the same environment with a `reserve_fn` that can fail
+
+`rplan` lists the outcomes of the reserve calls in the order they are made (the helper's own first
+Reserve, then the renewals); a letter with completion code 0 - and every call after the list is
+used up - grants the next id, any other letter makes `reserve_fn()` raise CompletionCodeError(code)
+(that is what `get_sel_reservation_id` / `get_sdr_repository_reservation_id` do with a refused
+Reserve command: node busy, timeout, any other error). -/
+structure EnvR where
+  env : Env
+  rplan : List Letter
+  deriving Repr, Inhabited
+
+def EnvR.reserve (e : EnvR) : EnvR × Outcome Nat :=
+  match e.rplan with
+  | [] => (⟨e.env.reserve.1, []⟩, e.env.reserve.2)
+  | l :: rest =>
+    if l.code = 0 then (⟨e.env.reserve.1, rest⟩, e.env.reserve.2)
+    else (⟨{ e.env with trace := e.env.trace ++ [.reserveFailed l.code] }, rest⟩, .ccError l.code)
+
+def EnvR.chunk (e : EnvR) (res : Nat) : EnvR × Outcome (Nat × Unit) :=
+  (⟨(e.env.chunk res).1, e.rplan⟩, (e.env.chunk res).2)
+
+def EnvR.clear (K : Consts) (e : EnvR) (ctrl res : Nat) : EnvR × Outcome Nat :=
+  (⟨(Env.clear K e.env ctrl res).1, e.rplan⟩, (Env.clear K e.env ctrl res).2)
+
+def runChunkR (K : Consts) (retry res0 : Nat) (s : Script) (rplan : List Letter) : EnvR × Outcome Unit :=
+  chunkLoop K EnvR.chunk EnvR.reserve retry ⟨⟨s, res0, []⟩, rplan⟩ res0
+
+def runClearR (K : Consts) (retry : Nat) (reservation : Option Nat) (s : Script) (rplan : List Letter) :
+    EnvR × Outcome Unit :=
+  clearHelper K (EnvR.clear K) EnvR.reserve retry reservation ⟨⟨s, reservation.getD 0, []⟩, rplan⟩
 
 def runChunk (K : Consts) (retry res0 : Nat) (s : Script) : Env × Outcome Unit :=
   chunkLoop K Env.chunk Env.reserve retry ⟨s, res0, []⟩ res0
